@@ -14,6 +14,7 @@
 import os, json, shutil, tempfile, zlib
 import vlib
 import walcommon as W
+import C04 as C04mod
 
 LEVEL = "proof"
 KEYS = ["k%02d" % i for i in range(24)]
@@ -30,12 +31,24 @@ def rnd_op(rng, big):
 
 
 def gen_history(rng, at, ninj, growth):
+    """at >= 1: writer released at the at-th chunk of the main-file copy; at == 0: writer released when the
+    WAL_COPY1 loop is over (wal_lock_interceptor, before the exclusive lock of stage WAL_COPY2) - there a checkpoint
+    or a file growth keeps the log and appends a reset mark, which ends up in the image"""
     ops = ["n1"] + [rnd_op(rng, False) for _ in range(rng.range(3, 14))]
     if rng.chance(1, 2):
         ops.append("s")
     ib = len(ops)
+    if at == 0:
+        ninj = max(ninj, 3)
     ops.append("B%d:%d" % (at, ninj))
-    ops += [rnd_op(rng, growth) for _ in range(ninj)]
+    inj = [rnd_op(rng, growth) for _ in range(ninj)]
+    if at == 0:
+        # something logged before the mark, the mark (forced checkpoint, or growth), something after it
+        j = rng.range(1, ninj - 2) if ninj > 3 else 1
+        inj[0] = "p1:%s:%d:%d" % (W.khex(rng.choice(KEYS)), rng.choice([5, 20, 100, 700]), rng.below(250))
+        inj[j] = "c" if rng.chance(2, 3) else "p1:%s:%d:%d" % (W.khex(rng.choice(KEYS)), 40000, rng.below(250))
+        inj[-1] = "p1:%s:%d:%d" % (W.khex(rng.choice(KEYS)), rng.choice([5, 20, 100, 700]), rng.below(250))
+    ops += inj
     ops += [rnd_op(rng, False) for _ in range(rng.range(0, 5))]
     ops.append("s")
     return ops, ib
@@ -68,7 +81,8 @@ def one(run, impl, model, wd, name, crc, ops, ib):
     a = starts.get(ib, 0)
     later = [starts[i] for i in starts if i > ib + 6]
     bnd = min(later) if later else len(tr["lsn"])
-    grew = any(f[0] == "R" for _, f in tr["lsn"][a:bnd])
+    at = int(ops[ib][1:].split(":")[0])
+    grew = at >= 1 and any(f[0] == "R" for _, f in tr["lsn"][a:bnd])
     res["resize_during_main_copy"] = grew
     gcl = "growth-during-main-copy"
     if line != "run exit=0":
@@ -85,11 +99,27 @@ def one(run, impl, model, wd, name, crc, ops, ib):
     res["injected"] = inj
     # image: model first (pristine bytes), then the implementation opens a copy
     rcm, outm, errm = vlib.run_lines(W.big_stack(model), "img %s %d\n" % (d, crc), timeout=300)
+    # T2 of the stage model: Backup.backup_run, fed with the listener/API calls of the run (before the call / while
+    # the main file is copied / at the end of WAL_COPY1), must produce the image byte for byte (clock masked)
+    inside_marker = any(l.startswith("G inject") for l in open(os.path.join(d, "trace")))
+    W.backup_event_files(d, ops, tr, ib, inj if inside_marker else 0, at)
+    bufsz = (4096 if crc & 2 else 8 * 1024 * 1024) - 12
+    rcb, outb, errb = vlib.run_lines(W.big_stack(model), "bkp %s %d %d\n" % (d, crc, bufsz), timeout=300)
+    fb = W.fields(outb[0]) if outb and outb[0].startswith("bkp") else {}
+    real_img = W.masked_image_crc(open(os.path.join(d, "bkp"), "rb").read())
+    res["stage_model"] = None
+    if not grew and fb.get("image") != real_img:
+        res["stage_model"] = "image bytes (clock masked): impl %s, Backup.backup_run %s" % (real_img, fb.get("image") or (outb[:1], errb[-100:]))
     d2 = os.path.join(d, "img")
     os.makedirs(d2)
     shutil.copyfile(os.path.join(d, "bkp"), os.path.join(d2, "db"))
+    # the restored image is opened (recovery of the packed log), then used: second session with more work, sync,
+    # CLEAN close, and opened again (as C04 does after a crash recovery)
     rci, outi, erri = vlib.run_lines(impl, "rec %s %d -1\nrec %s %d -1\n" % (d2, crc, d, crc))
     img_line, live_line = (outi + ["<none>", "<none>"])[:2]
+    db_after_open = open(os.path.join(d2, "db"), "rb").read() if os.path.exists(os.path.join(d2, "db")) else b""
+    rc2, out2, err2 = vlib.run_lines(impl, "run %s %d 0 -1 2 %s\nrec %s %d -1\n" % (d2, crc, " ".join(C04mod.SESSION2), d2, crc))
+    cont = {"run": (out2 + ["<none>"])[0], "final": (out2 + ["<none>", "<none>"])[1], "trace2": W.parse_trace(os.path.join(d2, "trace2"))}
     res["image"] = img_line[:1500]
     res["model"] = outm[0] if outm else errm[-200:]
     fi = W.fields(img_line)
@@ -98,7 +128,7 @@ def one(run, impl, model, wd, name, crc, ops, ib):
     if not fm:
         t2 = "model gave no answer: %s" % res["model"][:120]
     elif fi.get("exit") == "0":
-        db = open(os.path.join(d2, "db"), "rb").read()
+        db = db_after_open
         real = "%d:%08x" % (len(db), zlib.crc32(db) & 0xffffffff)
         want_rc = "0" if fm.get("rc") == "0" else fm.get("rc")
         if fi.get("rc") != want_rc:
@@ -120,6 +150,9 @@ def one(run, impl, model, wd, name, crc, ops, ib):
         if ks:
             return res, False, "image holds the state after %d operations; the call started after %d and returned after %d" % (ks[0], lo, hi), "image-wrong-instant"
         return res, False, "image holds a state that is not the state after any prefix of the history (call spans prefixes %d..%d)" % (lo, hi), gcl if grew else "image-torn"
+    why2 = C04mod.judge_continuation(img_line, cont)
+    if why2:
+        return res, False, "restored image, second session: " + why2, gcl if grew else "image-second-session"
     fl = W.fields(live_line)
     gotl, probsl = W.canon_dump(fl.get("dump", ""))
     if fl.get("exit") != "0" or fl.get("rc") != "0" or probsl or gotl != states[len(ops)]:
@@ -145,7 +178,7 @@ def check(run):
                 jobs.append((1000000 + len(jobs), c["crc"], c["ops"], ibc, True, int(c["ops"][ibc][1:].split(":")[0]), 0))
         for h in range(n):
             crc = run.rng.choice([0, 0, 1, 2])
-            at = run.rng.range(1, 5)
+            at = 0 if run.rng.chance(1, 3) else run.rng.range(1, 5)
             ninj = run.rng.range(0, 6)
             growth = run.rng.chance(1, 3)
             ops, ib = gen_history(run.rng, at, ninj, growth)
@@ -156,9 +189,19 @@ def check(run):
         for (h, crc, ops, ib, growth, at, ninj), (res, ok, why, cl) in zip(jobs, results):
             run.dist("writer_ops_inside_backup_%d" % res.get("injected", -1))
             run.dist("growth_inside" if growth else "no_growth_inside")
-            run.dist("inject_at_chunk_%d" % at)
+            run.dist("inject_at_chunk_%d" % at if at else "inject_at_end_of_WAL_COPY1")
+            if at == 0:
+                run.dist("reset_mark_by_%s" % ("checkpoint" if "c" in ops[ib + 1:ib + 1 + res.get("injected", 0)] else "growth"))
             run.case("%s|%d" % (" ".join(ops), crc), nontrivial=res.get("injected", 0) > 0,
                      sample={"ops": ops, "crc": crc, "image": res.get("image", "")[:160]} if h % 11 == 0 else None)
+            if res.get("stage_model"):
+                run.dist("stage_model_differs")
+                if len(run.broken) < 6:
+                    run.broken.append("T2 correspondence (Backup.backup_run) h%d: %s" % (h, res["stage_model"]))
+                    if os.environ.get("VERIF_DEBUG"):
+                        print("STAGE", h, crc, " ".join(ops)[:300])
+            elif "stage_model" in res:
+                run.dist("stage_model_ok")
             if res.get("t2"):
                 if len(run.broken) < 6:
                     run.broken.append("T2 correspondence (Backup) h%d: %s" % (h, res["t2"]))
@@ -176,11 +219,13 @@ def check(run):
         shutil.rmtree(wd, ignore_errors=True)
     return run.finish(level=LEVEL,
                       rule="random histories; iwkv_online_backup with 0..6 writer operations (values up to 40000 bytes, "
-                           "i.e. with and without file growth, syncs) executed at the 1st..5th chunk of the main-file copy; "
+                           "i.e. with and without file growth, syncs) executed at the 1st..5th chunk of the main-file copy or, a third of the "
+                           "scenarios, at the end of stage WAL_COPY1 with a forced checkpoint / file growth in their middle (reset mark "
+                           "inside the image); every opened image is then used by a second session (more work, sync, clean close, reopen); "
                            "a case = (history, checksum/buffer mode); non-trivial = at least one writer operation ran inside the call",
-                      assumptions=["writer interleavings are generated only at chunk boundaries of the main-file copy and on the "
-                                   "calling thread (no lock is held there); schedules of real threads, the later stages of the "
-                                   "backup and the checkpoint thread are NOT covered (partial, as DESIGN says for C07/C08)"])
+                      assumptions=["writer interleavings are generated only at chunk boundaries of the main-file copy and at the end "
+                                   "of WAL_COPY1 (wal_lock_interceptor), where the backup holds no lock; free-running schedules, stage "
+                                   "WAL_COPY2 and the checkpoint thread are NOT covered (partial, as DESIGN says for C07/C08)"])
 
 
 def replay(run, path):
